@@ -156,6 +156,15 @@ let do_ev args =
      | Some ev -> "R " ^ String.concat "," (List.map (fun c -> let c = int_of_nat c in if c >= r then Printf.sprintf "s%d" (c - r) else Printf.sprintf "r%d" (c + k)) ev))
   | _ -> "R BADREQ"
 
+(* ---- stream bem:  Y <m 4|8> <k> <n>  -> the generator matrix as the model of the C's construction builds it *)
+let do_bem args =
+  match args with
+  | [m; k; n] ->
+    let k = nat_of_int (int_of_string k) and n = nat_of_int (int_of_string n) in
+    let mat = if m = "8" then build_enc256 k n else build_enc16 k n in
+    "R " ^ String.concat "" (List.map hex_of_bytes mat)
+  | _ -> "R BADREQ"
+
 (* ---- stream gj:  W <field 8|4> <k> <hex matrix>  -> 0 <hex inverse> | 1 *)
 let do_gj args =
   match args with
@@ -287,6 +296,7 @@ let () =
       | "G" :: args -> print_endline (do_rsenc args)
       | "W" :: args -> print_endline (do_gj args)
       | "Z" :: args -> print_endline (do_ev args)
+      | "Y" :: args -> print_endline (do_bem args)
       | _ -> print_endline "BADREQ"
     done
   with End_of_file -> ()
